@@ -1,3 +1,10 @@
+\* Fragment RWLock: fiber_rwlock.c on top of the runtime core (property C07).
+\* One label per shared access of the C code: the plain read of rwlock->state.blob and the
+\* __sync_bool_compare_and_swap on it (a failed CAS goes back to the read).  The waiter queues
+\* are the core MPSC queues <lock>_rd / <lock>_wr (scenario key "mpscqs"); hand-off uses the
+\* core's wake_mpsc (yield-and-retry while a counted waiter is not yet enqueued).
+\* Scripts: rdlock/wrlock/tryrdlock/trywrlock/rdunlock/wrunlock <lock>, and the balanced
+\* variants tryrdun/trywrun <lock> (try, then unlock if it succeeded).
 #! CONSTANTS
 CONSTANTS RWLocks     \* rwlock names; the waiter queues of lock l are the MPSC queues l_rd and l_wr
 RwRQ(l) == l \o "_rd"
